@@ -57,3 +57,66 @@ package pebbledb
 //@   pure
 //@   requires nonnil: pit != nil && pit.iter != nil
 //@   ensures def: result <==> itvalid()
+
+// ---- C10/C03: DeletePrefix removes exactly the keys under the prefix ----------------------
+// Same contract as the badger driver's: on success no key with the prefix is left and
+// every other key (and every value) is as before; on failure nothing outside the prefix
+// has changed. The scan starts at the first key at or after the prefix.
+//@ func (*PebbleKV).DeletePrefix
+//@   vars pdb prefix deleteBlockSize found wb it i err
+//@   property C10 C03
+//@   option prelude=kv,kvlib
+//@   modifies KV. alloc SH.Str
+//@   requires nonnil: pdb != nil && pdb.db != nil
+//@   loop 1 invariant frame: (forall k:Str :: kvhas(k) ==> old(kvhas(k))) && (forall k:Str :: old(kvhas(k)) && !hasprefix(k, prefix) ==> kvhas(k)) && same(kvvals(), old(kvvals()))
+//@   loop 1 invariant done: !found ==> (forall k:Str :: kvhas(k) ==> !hasprefix(k, prefix))
+//@   loop 2 invariant frame: (forall k:Str :: kvhas(k) ==> old(kvhas(k))) && (forall k:Str :: old(kvhas(k)) && !hasprefix(k, prefix) ==> kvhas(k)) && same(kvvals(), old(kvvals()))
+//@   loop 2 invariant wb: soff(wb) == 0 && len(wb) >= 0 && sref(wb) >= 0 && sref(wb) < alloc && (forall j :: 0 <= j && j < len(wb) ==> hasprefix(wb[j], prefix))
+//@   loop 2 invariant nothing: !found
+//@   loop 2 invariant iter: itvalid() ==> kvhas(itpos()) && ble(prefix, itpos())
+//@   loop 2 invariant least: len(wb) == 0 && itvalid() ==> (forall j:Str :: kvhas(j) && ble(prefix, j) ==> ble(itpos(), j))
+//@   loop 2 invariant seen: len(wb) == 0 && !itvalid() ==> (forall k:Str :: kvhas(k) ==> !hasprefix(k, prefix))
+//@   loop 3 invariant frame: (forall k:Str :: kvhas(k) ==> old(kvhas(k))) && (forall k:Str :: old(kvhas(k)) && !hasprefix(k, prefix) ==> kvhas(k)) && same(kvvals(), old(kvvals()))
+//@   loop 3 invariant wb: soff(wb) == 0 && rangeindex < len(wb) && (forall j :: 0 <= j && j < len(wb) ==> hasprefix(wb[j], prefix))
+//@   loop 3 invariant none: len(wb) == 0 ==> (forall k:Str :: kvhas(k) ==> !hasprefix(k, prefix))
+//@   loop 3 invariant found: !found ==> rangeindex == -1
+//@   ensures ok: result == nil ==> (forall k:Str :: kvhas(k) <==> (old(kvhas(k)) && !hasprefix(k, prefix))) && same(kvvals(), old(kvvals()))
+//@   ensures fail: result != nil ==> (forall k:Str :: kvhas(k) ==> old(kvhas(k))) && (forall k:Str :: old(kvhas(k)) && !hasprefix(k, prefix) ==> kvhas(k)) && same(kvvals(), old(kvvals()))
+
+// ---- C10/C06: point reads of the pebble driver ----------------------------------------
+// HasKey and Get answer from the store and never touch the closer pebble returns only
+// together with a value (a lookup of an absent key returns no closer).
+//@ func (*PebbleKV).HasKey
+//@   vars pdb id c err
+//@   property C10 C06
+//@   option prelude=kv,kvlib
+//@   nopanic
+//@   pure
+//@   requires nonnil: pdb != nil && pdb.db != nil
+//@   ensures def: result <==> kvhas(id)
+//@ func (pebbleTransaction).HasKey
+//@   vars ptx id c err
+//@   property C10 C06
+//@   option prelude=kv,kvlib
+//@   nopanic
+//@   pure
+//@   requires nonnil: ptx.db != nil
+//@   ensures def: result <==> kvhas(id)
+//@ func (*PebbleKV).Get
+//@   vars pdb id v c err out
+//@   property C10 C06
+//@   option prelude=kv,kvlib
+//@   nopanic
+//@   pure
+//@   requires nonnil: pdb != nil && pdb.db != nil
+//@   ensures found: result.1 == nil <==> kvhas(id)
+//@   ensures value: result.1 == nil ==> result.0 == kvval(id)
+//@ func (pebbleTransaction).Get
+//@   vars ptx id v c err out
+//@   property C10 C06
+//@   option prelude=kv,kvlib
+//@   nopanic
+//@   pure
+//@   requires nonnil: ptx.db != nil
+//@   ensures found: result.1 == nil <==> kvhas(id)
+//@   ensures value: result.1 == nil ==> result.0 == kvval(id)
